@@ -17,6 +17,7 @@ pub struct Arm {
     pub c06: bool,
     pub c07: bool,
     pub c08: bool,
+    pub c09: bool,
 }
 
 #[derive(Clone)]
@@ -42,6 +43,7 @@ pub struct UnbondLc {
     pub slash_vals: Vec<&'static str>,
     /// multiplies every amount of the seeds and of `amounts_abs` (1e15 puts the pools at 1e18)
     pub scale: u128,
+    pub unbonding_slash: Vec<(u128, u128)>,
 }
 
 impl UnbondLc {
@@ -67,6 +69,7 @@ impl UnbondLc {
             with_foreign_receive: false,
             slash_vals: vec!["val1"],
             scale: 1,
+            unbonding_slash: vec![(1, 2)],
         }
     }
 }
@@ -82,6 +85,8 @@ pub struct G {
     pub ledger: BTreeMap<(String, u64), (u128, u128)>,
     /// claims deleted by withdrawals, per batch
     pub paid: BTreeMap<u64, (u128, u128)>,
+    /// release groups still being paid out: (batches, coins that arrived for them, coins paid so far, claims, clean)
+    pub groups: Vec<(Vec<u64>, u128, u128, u64, bool)>,
 }
 
 
@@ -218,6 +223,16 @@ impl Scenario for UnbondLc {
             h.update(x.to_le_bytes());
             h.update(y.to_le_bytes());
         }
+        h.update(b"|G");
+        for (bs, arr, paid, n, clean) in &g.groups {
+            for b in bs {
+                h.update(b.to_le_bytes());
+            }
+            h.update(arr.to_le_bytes());
+            h.update(paid.to_le_bytes());
+            h.update(n.to_le_bytes());
+            h.update([*clean as u8]);
+        }
     }
     fn observe(&self, c: &Chain) -> HubObs {
         HubObs::new(c)
@@ -263,7 +278,9 @@ impl Scenario for UnbondLc {
         if g.budget > 0 {
             if !c.unbonding.is_empty() {
                 for val in &self.slash_vals {
-                    v.push(slash_unbonding(val, 1, 2));
+                    for (n, d) in &self.unbonding_slash {
+                        v.push(slash_unbonding(val, *n, *d));
+                    }
                 }
             }
             if self.with_slash_bonded {
@@ -309,6 +326,47 @@ impl Scenario for UnbondLc {
             }
         }
         let is_withdraw_ok = out.ok() && a.is(HUB, "withdraw_unbonded");
+        if is_withdraw_ok && !released_now.is_empty() {
+            // a new release group: remember what arrived for it
+            let arrived = po.hub_usei.saturating_sub(po.state.prev_hub_balance.u128());
+            let dirty = g.rogue || released_now.iter().any(|b| qo.hist(*b).map(|h| g.dirty_times.contains(&(h.time + po.params.unbonding_period))).unwrap_or(false));
+            let claims: u64 = po.requests.values().map(|r| r.iter().filter(|x| released_now.contains(&x.0)).count() as u64).sum();
+            g2.groups.push((released_now.clone(), arrived, 0, claims, !dirty));
+        }
+        if is_withdraw_ok {
+            // attribute the payout to the groups of the batches it settled
+            let u0 = a.sender().to_string();
+            for (b, x, y) in po.requests.get(&u0).cloned().unwrap_or_default() {
+                if let Some(h) = qo.hist(b) {
+                    if h.released {
+                        let v = mul_dec(y, h.stsei_withdraw_rate) + mul_dec(x, h.bsei_withdraw_rate);
+                        for grp in g2.groups.iter_mut() {
+                            if grp.0.contains(&b) {
+                                grp.2 += v;
+                            }
+                        }
+                    }
+                }
+            }
+            // a group none of whose batches is claimed by anybody any more is settled: compare paid with arrived
+            let mut keep = vec![];
+            for grp in g2.groups.drain(..) {
+                let open = qo.requests.values().any(|r| r.iter().any(|x| grp.0.contains(&x.0)));
+                if open {
+                    keep.push(grp);
+                } else if self.arm.c01 {
+                    cx.trigger("c01_group_settled");
+                    let slack = (grp.0.len() as u128) * 6 + 2 * grp.3 as u128;
+                    if grp.2 > grp.1 {
+                        cx.viol("C01.group_paid_le_arrived", "claimants of a release group were paid more than arrived for it", format!("{}: batches {:?} arrived {} paid {}", a.label, grp.0, grp.1, grp.2));
+                    }
+                    if grp.4 && grp.2 + slack < grp.1 {
+                        cx.viol("C01.group_paid_dust", "a fully withdrawn release group (no slashing, no rogue coins) paid out less than arrived beyond rounding dust", format!("{}: batches {:?} arrived {} paid {} over {} claims", a.label, grp.0, grp.1, grp.2, grp.3));
+                    }
+                }
+            }
+            g2.groups = keep;
+        }
         if is_withdraw_ok {
             let u = a.sender().to_string();
             let keys: Vec<(String, u64)> = g2.ledger.keys().filter(|(x, b)| *x == u && qo.hist(*b).map(|h| h.released).unwrap_or(false)).cloned().collect();
@@ -353,6 +411,9 @@ impl Scenario for UnbondLc {
         }
         if self.arm.c07 {
             c07_state(c, o, g, cx);
+        }
+        if self.arm.c09 {
+            c09_matured_probe(c, o, cx);
         }
     }
 }
@@ -599,6 +660,37 @@ fn c01_probe(_sc: &UnbondLc, c: &Chain, o: &HubObs, cx: &mut Cx) {
     }
     if mu.len() >= 2 {
         cx.count("c01_probe_multi_user_orders");
+    }
+}
+
+/// C09: once the unbonding period has passed, a holder's WithdrawUnbonded succeeds whenever its claim is
+/// worth at least one unit — also for what is left after a first, partial payout.
+pub fn c09_matured_probe(c: &Chain, o: &HubObs, cx: &mut Cx) {
+    let mu = matured_users(c, o);
+    if mu.is_empty() {
+        return;
+    }
+    cx.trigger("c09_matured_claim_probes");
+    let clean = c.unbonding.iter().all(|x| x.balance == x.initial);
+    for (u, _, _) in &mu {
+        let mut cc = c.clone();
+        for round in 0..3 {
+            let oo = HubObs::new(&cc);
+            let Some((_, val, n)) = matured_users(&cc, &oo).into_iter().find(|m| m.0 == *u) else { break };
+            let (r, _) = do_withdraw(&mut cc, u);
+            cx.probe(1);
+            match r {
+                Ok(_) => continue,
+                Err(e) => {
+                    if !e.contains("No withdrawable") {
+                        cx.viol("C09.can_withdraw", format!("withdraw after the unbonding period fails: {}", classify_err(&e)), format!("{} (attempt {}): {}", u, round + 1, e));
+                    } else if val >= 1 + 3 * n as u128 && (clean || round > 0) {
+                        cx.viol("C09.can_withdraw", "claims worth at least one unit refused after the unbonding period", format!("{} (attempt {}): matured value {} over {} claims", u, round + 1, val, n));
+                    }
+                    break;
+                }
+            }
+        }
     }
 }
 
